@@ -1059,7 +1059,15 @@ fn oracle(v: &mut Verdict, sb: &Sandbox, m: &FsModel, p: &PreState, q: &BTreeMap
                         _ => k.clone(),
                     };
                     let unverified_same = !o.verify_existing && p_file(p, &pre_key).is_some_and(|(pb, pm, _)| pb.len() == want.len() && pm == e.mtime);
-                    let content = want != got && !unverified_same;
+                    // a snapshot hard link of a file that was accepted by size+mtime without verification shows
+                    // that file's (unverified) bytes under this name too: not judged, as in the general case below
+                    let linked_to_unverified = e.links > 1
+                        && !o.verify_existing
+                        && m.entries.iter().any(|(k2, e2)| k2 != k && e2.links > 1 && e2.inode == e.inode && p_file(p, k2).is_some_and(|(pb, pm, _)| pb.len() == want.len() && pm == e2.mtime));
+                    if want != got && !unverified_same && linked_to_unverified {
+                        v.fire("hard-link-of-a-file-accepted-by-size-and-mtime-has-its-bytes (not judged)");
+                    }
+                    let content = want != got && !unverified_same && !linked_to_unverified;
                     let meta = ob.mode != e.mode & 0o7777 || ob.mtime != e.mtime || (!o.no_ownership && (ob.uid != e.uid || ob.gid != e.gid));
                     if content || meta {
                         v.viol(
